@@ -11377,9 +11377,14 @@ class TensorDictBase(MutableMapping):
         # storage location can be identical, resulting in a RuntimeError
         if is_compiling():
             self.clear_refs_for_compile_()
-        if exc_type is not None and issubclass(exc_type, Exception):
-            return False
         _last_op = self._last_op_queue.pop()
+        if exc_type is not None and issubclass(exc_type, Exception):
+            # The body raised: results of shape operations are not written back, but a
+            # parameter swap must be undone or the module is left without its parameters.
+            if _last_op is not None and _last_op[0] == "to_module":
+                last_op, (args, kwargs, out_wr) = _last_op
+                LAST_OP_MAPS[last_op](self, args, kwargs, out_wr())
+            return False
         if _last_op is not None:
             last_op, (args, kwargs, out_wr) = _last_op
             # TODO: transpose, flatten etc. as decorator should lock the content to make sure that no key is
